@@ -28,13 +28,13 @@ CLAIMED = {
     "C04": (
         "runtime monitoring: trace-specification monitor - enter/leave events recorded by instrumented handlers are compared with the trace predicted by a reference scope model + onion interpreter over generated registration programs",
         "For every route of every generated registration program (nested Group/Controller, Use at any point incl. after routes, variadic and later Route.Use middleware, NotFound/NotAllowed, handlers calling Next 0/1/2 times) the recorded per-request trace must equal the predicted one; also for not-found and wrong-method requests.",
-        "Trusted: scope model and onion interpreter in harness/mon/prog.go; chains stay well below the handler limit (C05 covers long chains).",
+        "Trusted: scope model and onion interpreter in harness/mon/prog.go. The generated programs keep chains short; a separate part drives chains of 40..327 entries (global middleware on top of a full route chain) in which nobody aborts.",
         "DESIGN.md section 4 C04",
     ),
     "C05": (
         "runtime monitoring: trace-specification monitor with a specification-level interpreter of Next/Abort; IsAborted() sampled at entry, around the abort call and at leave of every handler; small-scope exhaustive chain shapes + sampled long chains up to the handler limit",
-        "All chains of length 1..7 (quick) / 1..9 (thorough) x aborter position x 4 abort APIs x before/after/without Next x extra Next x all subsets of Next-calling handlers x committed-or-not, plus sampled chains of 9..63 handlers: no handler starts after the abort, suspended handlers resume, IsAborted is false before / true after, AbortWithStatus decides the status unless already committed.",
-        "Trusted: the 30-line specification interpreter in harness/mon/c05.go. Total chain <= 63. One observation class is a listed known finding (KF1, exactly 63 handlers).",
+        "All chains of length 1..7 (quick) / 1..9 (thorough) x aborter position x 4 abort APIs x before/after/without Next x extra Next x all subsets of Next-calling handlers x committed-or-not, plus sampled chains of 9..140 handlers (optionally behind a recover or a buffering middleware, or on a writer whose first write fails) and a second, non-aborting request after every aborted one: no handler starts after the abort, suspended handlers resume, IsAborted is false before / true after, AbortWithStatus decides the status unless already committed.",
+        "Trusted: the 30-line specification interpreter in harness/mon/c05.go. A route's own chain stays within the registration limit of 63; global middleware makes executed chains of up to 140 entries. No known finding is open (the former KF1 is repaired, fix 4aae171).",
         "DESIGN.md section 4 C05",
     ),
     "C08": (
@@ -70,7 +70,7 @@ CLAIMED = {
     "C06": (
         "runtime monitoring: reference-model monitor of the documented fallback order (direct, HEAD->GET, '/*', 405/Allow, 404, InterceptAll) run in lock-step with Match and ServeHTTP over generated tables x option sets",
         "Every probe's outcome (route / allowed set via Match; status, Allow header, body, CTXAllowedMethods via ServeHTTP, default and custom fallback handlers) is compared with an executable statement of the resolution order over all 2^k option combinations sampled per table.",
-        "Trusted: AST matcher + the 30-line resolution model in harness/mon/c06.go; ranking among several direct qualifiers is C01's business (either documented or KF2 ranking accepted here).",
+        "Trusted: AST matcher + the 30-line resolution model in harness/mon/c06.go; ranking among several direct qualifiers is C01's business (the documented winner, or the other direct qualifier of the same stage, is accepted here).",
         "DESIGN.md section 4 C06",
     ),
     "C07": (
